@@ -342,7 +342,7 @@ def gen_event(rng: random.Random, tb: dict, cfg: dict, T: int, etype=None, capit
             a = rng.choice([0.5, 0.7, 0.25, 0.9])
             sh = [a, 1.0 - a]
         else:
-            sh = [0.5, 0.3, 0.2]
+            sh = rng.choice([[0.5, 0.3, 0.2], [0.7, 0.2, 0.1]])        # (0.7 + 0.2 + 0.1 is 0.9999999999999999 in floats)
         ev["reb_sectors"] = dict(zip(rs, sh))
         ev["factor"] = rng.choice([1.0, 1.0, 0.9, 0.3])
         ev["shares_series"] = rng.random() < 0.35
